@@ -5,8 +5,8 @@ import (
 	"sync"
 
 	"github.com/smallstep/certificates/authority/provisioner"
-	c "verif/harness/common"
 	"verif/harness/cmd/c02/ss"
+	c "verif/harness/common"
 )
 
 // Tokid is one case of the tokid stage: a provisioner type and the claims of a presented string.
